@@ -368,6 +368,79 @@ def reuse_case(args):
         shutil.rmtree(tmp, ignore_errors=True)
 
 
+MAIN_SCRIPT = '''
+import json, os, sys
+import labtech
+
+
+@labtech.task
+class MainTask:
+    x: int
+    tag: str = 't'
+
+    def run(self):
+        with open(os.environ['C06_MARK'], 'a') as f:
+            f.write(f'{self.x}\\n')
+        return ('M', self.x, self.tag)
+
+
+@labtech.task
+class MainWrap:
+    inner: MainTask
+
+    def run(self):
+        with open(os.environ['C06_MARK'], 'a') as f:
+            f.write(f'w{self.inner.x}\\n')
+        return ('W', self.inner.result)
+
+
+if __name__ == '__main__':
+    import logging
+    labtech.logger.setLevel(logging.CRITICAL + 10)
+    storage, backend = sys.argv[1], sys.argv[2]
+    tasks = [MainTask(x=1), MainTask(x=2, tag='u'), MainWrap(inner=MainTask(x=3))]
+    lab = labtech.Lab(storage=storage, runner_backend=backend, max_workers=2, notebook=False)
+    before = [lab.is_cached(t) for t in tasks]
+    res = lab.run_tasks(tasks, disable_progress=True, disable_top=True)
+    after = [lab.is_cached(t) for t in tasks]
+    print(json.dumps({'before': before, 'after': after, 'values': [repr(res.get(t)) for t in tasks], 'keys': [t.cache_key for t in tasks]}))
+'''
+
+
+def main_script_case(args):
+    """Task types defined in the user's main script (module __main__; __mp_main__ inside spawned
+    workers): first run with backend b1, second run in a fresh interpreter with backend b2."""
+    b1, b2 = args
+    tmp = tempfile.mkdtemp(prefix='c06m_')
+    out = []
+    try:
+        script = os.path.join(tmp, 'user_script.py')
+        open(script, 'w').write(MAIN_SCRIPT.replace('\\\\n', '\\n'))
+        mark = os.path.join(tmp, 'mark')
+        runs = []
+        for b, s in ((b1, 1), (b2, 2)):
+            open(mark, 'w').close()
+            rc, so, se = run_isolated([sys.executable, script, os.path.join(tmp, 'st'), b], env=py_env(s, C06_MARK=mark), timeout=180, cwd=tmp)
+            if rc != 0:
+                return [(f'run-failed:{b}', f'main-script run with backend {b} exited {rc}: {se[-500:]}', 1)], 0
+            runs.append((json.loads(so.strip().splitlines()[-1]), open(mark).read().split()))
+        (r1, m1), (r2, m2) = runs
+        d = f'task types defined in the main script, first={b1} second={b2}'
+        if r1['keys'] != r2['keys']:
+            out.append(('key-differs-across-processes', f'{d}: {r1["keys"]} vs {r2["keys"]}', 1))
+        if not all(r1['after']):
+            out.append(('not-cached-after-run', f'{d}: is_cached after the first run: {r1["after"]}', 1))
+        if not all(r2['before']):
+            out.append(('not-cached-in-new-process', f'{d}: is_cached in the second process: {r2["before"]}', 1))
+        if m2:
+            out.append(('re-executed', f'{d}: run() executed again in the second run: {m2}', 1))
+        if r1['values'] != r2['values']:
+            out.append(('value-differs', f'{d}: {r1["values"]} vs {r2["values"]}', 1))
+        return out, 3
+    finally:
+        shutil.rmtree(tmp, ignore_errors=True)
+
+
 def _all_tasks(t):
     from ..paramtree import find_tasks
     out = [t]
@@ -383,6 +456,8 @@ def _work(item):
         return ('cross',) + cross_case(payload)
     if kind == 'reuse':
         return ('cross',) + reuse_case(payload)
+    if kind == 'main':
+        return ('cross',) + main_script_case(payload)
     if kind == 'group':
         return ('inproc',) + group_case(payload)
     if kind == 'two':
@@ -426,7 +501,8 @@ def run(tier: str, seed: int) -> Result:
     two = [it for it in grp[::7] if it[0] != 'NoCacheT']      # a cache=None type is re-executed by design
     work += [('two', two[j:j + 50]) for j in range(0, len(two), 50)]
     reuse = [(b, 0, 3) for b in backends] if tier == 'quick' else [(b, w, 2 + w) for b in backends for w in (0, 1, 2)]
-    work = [('cross', c) for c in cross] + [('reuse', r) for r in reuse] + work
+    mains = [('spawn', 'serial'), ('fork', 'spawn'), ('serial', 'spawn')] if tier == 'quick' else list(itertools.product(backends, repeat=2))
+    work = [('cross', c) for c in cross] + [('reuse', r) for r in reuse] + [('main', m) for m in mains] + work
     viols = []
     n_in = n_cross = 0
     for kind, res, n in pmap(_work, work):
